@@ -5,6 +5,7 @@ wrappers.Request.__init__/Response.prepare, errors.httperror.  Data: the truncat
 request, mutation(s) from a catalogue, whether/when the peer disconnects.
 """
 
+import gzip
 import os
 import sys
 
@@ -32,10 +33,14 @@ ASSUMPTIONS = ['the TCP server is replaced by a sink that records write/close an
 OUTSIDE = ['inputs outside the mutation catalogue', 'oversized headers beyond 9000 bytes', 'TLS-enabled servers']
 
 HOST = b'Host: example.org\r\n'
+GZ = gzip.compress(b'a' * 3000, mtime=0)
 BASES = [
     ('get', b'GET /a?x=1 HTTP/1.1\r\n' + HOST + b'X-A: 1\r\n\r\n'),
     ('post-clen', b'POST /p HTTP/1.1\r\n' + HOST + b'Content-Length: 3\r\n\r\nabc'),
     ('post-chunked', b'POST /c HTTP/1.1\r\n' + HOST + b'Transfer-Encoding: chunked\r\n\r\n3\r\nabc\r\n0\r\n\r\n'),
+    ('head', b'HEAD /a?x=1 HTTP/1.1\r\n' + HOST + b'X-A: 1\r\n\r\n'),      # answered without a body: a branch of its own in _on_response
+    ('head-clen', b'HEAD /h HTTP/1.1\r\n' + HOST + b'Content-Length: 3\r\n\r\nabc'),
+    ('post-gzip', b'POST /z HTTP/1.1\r\n' + HOST + b'Content-Encoding: gzip\r\nContent-Length: %d\r\n\r\n' % len(GZ) + GZ),   # wire size << inflated size
     ('get-boom', b'GET /boom HTTP/1.1\r\n' + HOST + b'\r\n'),          # the application itself fails: one 500, nothing else
 ]
 
@@ -169,7 +174,17 @@ def make_harness(n_mut, truncation=True):
             g.fail('closed-twice', w, detail)
         if out:
             try:
-                resps = parse_responses(out, eof=st['closed'] or disc)
+                if msg.lstrip(b'\r\n').startswith(b'HEAD '):
+                    # the answer to HEAD has no body -- unless the server never got as far as knowing the method: an error
+                    # response that closes the connection may carry one
+                    try:
+                        resps = parse_responses(out, methods=['HEAD'], eof=st['closed'] or disc)
+                    except ValueError:
+                        resps = parse_responses(out, eof=st['closed'] or disc)
+                        if not (len(resps) == 1 and resps[0]['status'] >= 400 and resps[0]['will_close']):
+                            raise
+                else:
+                    resps = parse_responses(out, eof=st['closed'] or disc)
             except ValueError as e:
                 g.fail('response-not-well-formed', w, '%s; %s' % (e, detail))
                 raise PathEnd()
